@@ -56,4 +56,60 @@ def runCase (cfg : List String) (ops : List String) : List String :=
         | _ => "bad-op"
   | _, _ => ops.map fun _ => "bad-config"
 
+/-! ## histories:  case history <tokens of the file the daemon started with>
+    ops (each answered with `<answer> | file=<digest> | active=<digest>`):
+      reread T <tokens>                      reloadConfig with the file now on disk
+      update <hex,hex|-> T <tokens>          supervisorctl update [names] (it rereads first)
+      remove <hex> / add <hex>               removeProcessGroup / addProcessGroup
+    In a history no process is ever started, so every stop completes trivially. -/
+
+def cfgDigest (g : GConfig) : String := groupLine g ++ ";" ++ ";".intercalate (g.procs.map procLine)
+def listDigest (l : List GConfig) : String := if l.isEmpty then "-" else "#".intercalate (l.map cfgDigest)
+def stateLine (ans : String) (s : State) : String :=
+  ans ++ " | file=" ++ listDigest s.file ++ " | active=" ++ listDigest (s.active.map (·.cfg))
+
+def faultS : Fault → String
+  | .cantReread => "CANT_REREAD" | .badName => "BAD_NAME" | .alreadyAdded => "ALREADY_ADDED" | .stillRunning => "STILL_RUNNING"
+
+def parseGroups (toks : List String) : Option (Except String (List GConfig)) :=
+  match parseIni toks emptyIni with
+  | none => none
+  | some ini => some ((readConfig ini).map (·.groups))
+
+def histStep (s : State) (op : String) : String × State :=
+  match words op with
+  | "reread" :: "T" :: toks =>
+    match parseGroups toks with
+    | none => ("bad-op", s)
+    | some parsed =>
+      let r := reloadConfig s parsed
+      match r.1 with
+      | .ok (a, c, rm) => (stateLine s!"added={namesS a} changed={namesS c} removed={namesS rm}" r.2, r.2)
+      | .error f => (stateLine (faultS f) r.2, r.2)
+  | "update" :: al :: "T" :: toks =>
+    match decodeArgs (if al == "-" then [] else al.splitOn ","), parseGroups toks with
+    | some args, some (.ok new) => let s' := doUpdate s new args; (stateLine "ok" s', s')
+    | some _, some (.error _) => (stateLine "CANT_REREAD" s, s)
+    | _, _ => ("bad-op", s)
+  | ["remove", h] =>
+    match strOfHex h with
+    | none => ("bad-op", s)
+    | some g => let r := removeProcessGroup s g
+                (stateLine (match r.1 with | .ok _ => "ok" | .error f => faultS f) r.2, r.2)
+  | ["add", h] =>
+    match strOfHex h with
+    | none => ("bad-op", s)
+    | some g => let r := addProcessGroup s g
+                (stateLine (match r.1 with | .ok _ => "ok" | .error f => faultS f) r.2, r.2)
+  | _ => ("bad-op", s)
+
+def histRun : State → List String → List String
+  | _, [] => []
+  | s, op :: rest => let r := histStep s op; r.1 :: histRun r.2 rest
+
+def runHistory (cfg : List String) (ops : List String) : List String :=
+  match parseGroups cfg with
+  | some (.ok gs) => histRun { file := gs, active := gs.map fun g => { cfg := g, procs := freshProcs g } } ops
+  | _ => ops.map fun _ => "bad-config"
+
 end Sv.Reread
